@@ -8,7 +8,7 @@ ROOT = os.path.dirname(os.path.dirname(os.path.abspath(__file__)))
 CHECKS = {
     "C01": ("exploration",
             "proptest stateful histories + stream round-trip oracle (reference name grammar)",
-            "Generated configuration x operation histories (thousands per quick run, 150k thorough) executed against the real logger under a virtual clock; the rotated files in semantic order plus the current file must equal the concatenation of all logged lines. Search, not proof: it shows absence of violations only on the explored cases.",
+            "Generated configuration x operation histories (thousands per quick run, 150k thorough) executed against the real logger under a virtual clock; the rotated files in semantic order plus the current file must equal the concatenation of all logged lines. Search, not proof: it shows absence of violations only on the explored cases. Later additions: dotted suffixes/basenames/timestamp formats, builder call order and default timestamp decision (build_variant), [starttime] with an advancing clock.",
             "trusts: harness name grammar and semantic file order; tmpfs semantics; verif_hooks virtual clock equals the real clock path (cross-checked by the 10% real-clock cases)",
             "DESIGN.md 4/C01"),
     "C02": ("exploration",
@@ -23,17 +23,17 @@ CHECKS = {
             "DESIGN.md 4/C03"),
     "C04": ("exploration",
             "proptest histories with immediate observation after the terminal call (files, committing custom writer, child process ending with _exit)",
-            "Generated histories of writes, flushes, rotations, clone-and-drop of the handle and sleeps in every write mode and output, ended by shutdown(), drop of the last handle or flush(); the output is read immediately after the call returned (the child process _exits) and must hold exactly the records whose log calls had returned, also those logged after a clone of the handle was dropped. Search, not proof; found the clone-drop defect that was repaired.",
+            "Generated histories of writes, flushes, rotations, clone-and-drop of the handle and sleeps in every write mode and output, ended by shutdown(), drop of the last handle or flush(); the output is read immediately after the call returned (the child process _exits) and must hold exactly the records whose log calls had returned, also those logged after a clone of the handle was dropped. Search, not proof; found the clone-drop defect that was repaired. Later additions: two shutdown() calls in flight at once (observation after the first that returns), the last two handle clones dropped concurrently by two threads (60 repetitions per case), loggers built with a specification file (watcher build).",
             "timing of flusher/writer threads is sampled, not controlled",
             "DESIGN.md 4/C04"),
     "C05": ("exploration",
             "model-based testing of reconfiguration histories (proptest sequences + (active, stack) model)",
-            "Generated sequences of the five reconfiguration operations incl. malformed strings and pops on an empty stack; after every step enabled()/written records/max_level are compared with the model's active specification, and parse results with the reference parser. Search, not proof.",
+            "Generated sequences of the five reconfiguration operations incl. malformed strings and pops on an empty stack; after every step enabled()/written records/max_level are compared with the model's active specification, and parse results with the reference parser. Search, not proof. Later addition: a failing second Logger::start() as an operation (must leave spec, stack and max level alone).",
             "trusts the reference matcher and the reference parser (src/spec.rs)",
             "DESIGN.md 4/C05"),
     "C10": ("exploration",
             "robustness fuzzing (proptest structured generators for targets, spec strings, hostile file configurations and near-miss directory contents) with panic/hang oracle and a probe record after every step",
-            "Generated hostile records, specification strings, file-name configurations and pre-populated directories (near misses derived from the logger's own pattern, invalid UTF-8, malformed .restart- extensions, sub-directories, dangling symlinks) under histories incl. restarts and external removal of the directory; any panic in any thread, any watchdog hit, or a probe record that panics afterwards is a violation. Search, not proof; six panics found this way were repaired in /repo.",
+            "Generated hostile records, specification strings, file-name configurations and pre-populated directories (near misses derived from the logger's own pattern, invalid UTF-8, malformed .restart- extensions, sub-directories, dangling symlinks) under histories incl. restarts and external removal of the directory; any panic in any thread, any watchdog hit, or a probe record that panics afterwards is a violation. Search, not proof; six panics found this way were repaired in /repo. Later additions: long multi-byte target names at every byte offset, numbers at the integer limits in pre-populated file names, degenerate async capacities, 150 live specfile watchers (watcher build), dotted suffixes/basenames/timestamp formats.",
             "documented panics are not provoked; hang = case exceeding the 30 s watchdog reproducibly in a fresh process",
             "DESIGN.md 4/C10"),
     "C11": ("fault_enumeration",
@@ -63,47 +63,47 @@ CHECKS = {
             "DESIGN.md 4/C18"),
     "C19": ("fault_enumeration",
             "exhaustive single-fault injection (plus sampled bursts) at the file-system hook points of proptest-generated histories, with a stream/report/recovery oracle",
-            "For every generated history all hits of the fault-capable points are traced and each is failed once in a fresh run (exhaustive per history), plus bursts of 2-5 consecutive failures; oracle: no panic, intact lines, order kept, only records whose own write (or the writer's initialisation during their call) failed may be missing, failures of write/rename/open are reported on the error channel, and a fault-free tail (record, rotation, record) ends in two different files. Exhaustive over single faults of each explored history; histories are sampled.",
+            "For every generated history all hits of the fault-capable points are traced and each is failed once in a fresh run (exhaustive per history), plus bursts of 2-5 consecutive failures; oracle: no panic, intact lines, order kept, only records whose own write (or the writer's initialisation during their call) failed may be missing, failures of write/rename/open are reported on the error channel, and a fault-free tail (record, rotation, record) ends in two different files. Exhaustive over single faults of each explored history; histories are sampled. Later additions: background cleanup thread incl. a directed hold/release schedule for its passes; limits must hold again after the faults; every run replayed through the partition model (exact partition for the fault-free run and for cleanup/compression-only fault plans); a restart in the middle of a third of the histories (faults during the initialisation of the restarted writer); a real-write-failure scenario (RLIMIT_FSIZE 4096 for a window of operations or until shutdown() has returned: EFBIG on every write that extends the log file, in Direct and buffered modes).",
             "faults are injected at hook points directly before the real call (the call itself is skipped); Direct write mode only; real partial writes / ENOSPC mid-write are not modelled",
             "DESIGN.md 4/C19"),
     "C20": ("exploration",
             "reference renderers + JSON decode round trip over proptest-generated records, virtual ticking clock for the one-timestamp clause",
-            "Generated records (hostile message text, optional location fields, key-values, recursive Display arguments) through every provided format function, both line endings, all write modes; file bytes must equal reference rendering + exactly one line ending per record (inner records first), coloured output minus SGR sequences must equal the plain rendering, JSON must be one parsable line decoding to the generated values, and all outputs of a record must show the timestamp the recording writer saw (clock advancing 1 us per reading). Search, not proof.",
+            "Generated records (hostile message text, optional location fields, key-values, recursive Display arguments) through every provided format function, both line endings, all write modes; file bytes must equal reference rendering + exactly one line ending per record (inner records first), coloured output minus SGR sequences must equal the plain rendering, JSON must be one parsable line decoding to the generated values, and all outputs of a record must show the timestamp the recording writer saw (clock advancing 1 us per reading). Search, not proof. Later additions: two levels of recursive logging, use_utc() and flush() after every record and a start time in the file name in child-process cases, an argument whose Display panics (caught) followed by further records.",
             "trusts the reference renderers (written from the documented layouts), serde_json as JSON decoder; stdout/stderr duplicates are covered by C13 (routing) but their timestamps are not parsed here",
             "DESIGN.md 4/C20"),
     "C06": ("exploration",
             "model-based multi-run histories (proptest) with stream-continuation and immutability invariants over directory snapshots",
-            "Generated sequences of 2-5 runs (append on/off, writes, rotations, clock gaps from 0 ms to 40 days) with all namings and cleanup strategies and directory manipulations between runs (all rotated files gzipped, current missing, gaps); after every run the gunzipped family stream must be the previous stream plus the run's lines (a suffix of it with cleanup; documented truncation modelled) and every closed file of the previous snapshot must be unchanged or legitimately cleaned up. Search, not proof; found and led to the repair of six restart defects.",
+            "Generated sequences of 2-5 runs (append on/off, writes, rotations, clock gaps from 0 ms to 40 days) with all namings and cleanup strategies and directory manipulations between runs (all rotated files gzipped, current missing, gaps); after every run the gunzipped family stream must be the previous stream plus the run's lines (a suffix of it with cleanup; documented truncation modelled) and every closed file of the previous snapshot must be unchanged or legitimately cleaned up. Search, not proof; found and led to the repair of six restart defects. Later additions: renumbering of the family up to index 99998 between runs (rotations cross r99999 -> r100000), dotted names, build_variant.",
             "trusts the name grammar / semantic order and the directory-snapshot comparison; [starttime] part excluded",
             "DESIGN.md 4/C06"),
     "C07": ("exploration",
             "model-based histories (proptest) with cleanup invariants checked after every operation; randomized schedules (hook-point noise) for background executors",
-            "Generated histories x cleanup limits k,m in {0,1,2,3,5} x namings x suffixes x executors; upper bounds, contiguous-tail stream oracle (implies lossless compression and no plain twin), current file plain and present, and lower bounds from the reference partition model's count of produced files. Synchronous cleanup is checked after every operation; background/async cleanup after shutdown under seed-chosen scheduling noise (sampling, not enumeration).",
+            "Generated histories x cleanup limits k,m in {0,1,2,3,5} x namings x suffixes x executors; upper bounds, contiguous-tail stream oracle (implies lossless compression and no plain twin), current file plain and present, and lower bounds from the reference partition model's count of produced files. Synchronous cleanup is checked after every operation; background/async cleanup after shutdown under seed-chosen scheduling noise (sampling, not enumeration). Later additions: cleanup limits at usize::MAX, dotted names, noise at rotation points, build_variant.",
             "trusts the partition model for the number of produced files; schedules of the background cleanup are sampled by the OS + noise only",
             "DESIGN.md 4/C07"),
     "C14": ("exploration",
             "differential twin runs (with vs without foreign entries) over proptest-generated near-miss names, metadata comparison of the foreign entries",
-            "The same generated multi-run history is executed in a directory pre-populated with near-miss foreign entries (classified by the reference family predicate) and in an empty directory under the same virtual clock; foreign entries must keep name/inode/size/mtime/bytes, and family files, existing_log_files answers and error counts must be identical between the twins. Search, not proof.",
+            "The same generated multi-run history is executed in a directory pre-populated with near-miss foreign entries (classified by the reference family predicate) and in an empty directory under the same virtual clock; foreign entries must keep name/inode/size/mtime/bytes, and family files, existing_log_files answers and error counts must be identical between the twins. Search, not proof. Later additions: sub-directories with real family names, directory twins of compressed files planted before later runs, foreign names with non-ASCII digits.",
             "the reference family predicate (src/observe.rs) defines 'foreign'; sub-directories may also carry real family names that no history produces",
             "DESIGN.md 4/C14"),
     "C08": ("exploration",
             "proptest histories + reference partition model (model-based testing)",
-            "Generated size limits, record-length sequences at the limit boundaries, all write modes incl. async, all namings, append restarts; the ordered list of file contents must equal the partition predicted by an independent model (rotate iff size before the write > N, size seeded from the appended file), plus the corollary 'no record appended to a file already above N' checked directly on the files. Search over thousands of cases, no proof.",
+            "Generated size limits, record-length sequences at the limit boundaries, all write modes incl. async, all namings, append restarts; the ordered list of file contents must equal the partition predicted by an independent model (rotate iff size before the write > N, size seeded from the appended file), plus the corollary 'no record appended to a file already above N' checked directly on the files. Search over thousands of cases, no proof. Later additions: records whose own write fails (sync and async modes; the model takes the rotation decision and adds no bytes), external move of the current file + reopen_output().",
             "trusts the reference partition model (src/model.rs, written from the documentation), the name grammar, tmpfs; restarts of direct-timestamp namings avoided (listed finding under C06) and counted",
             "DESIGN.md 4/C08"),
     "C09": ("exploration",
             "proptest histories under a virtual clock + reference partition model (model-based testing)",
-            "Virtual-clock histories with structured instants and advance steps straddling second/minute/hour/day/month/year boundaries, in 6 DST-free time zones; file partition must equal the model (rotate iff local period differs from the period in which the current file was started) and timestamp infixes must equal the instant the content was started. Search, not proof.",
+            "Virtual-clock histories with structured instants and advance steps straddling second/minute/hour/day/month/year boundaries, in 6 DST-free time zones; file partition must equal the model (rotate iff local period differs from the period in which the current file was started) and timestamp infixes must equal the instant the content was started. Search, not proof. Later additions: failing writes and external move + reopen_output() as for C08; three real-time cases per run (real clock and real file metadata, Age::Second, 2.3 s tight logging loop; oracle: not more files than seconds seen, no file spanning two seconds).",
             "trusts the verif_hooks clock redirection (every Local::now() of the file writer and the creation-time lookup), chrono's time-zone conversion, the reference model; async mode and direct-timestamp restarts excluded as stated in the evidence",
             "DESIGN.md 4/C09"),
     "C13": ("exploration",
             "model-based routing check (proptest cases against a routing model), syslog over a unix datagram socket, duplication in a child process with captured pipes",
-            "Generated writer sets (custom recorder, FileLogWriter with max_level, SyslogWriter with max_log_level), brace lists over registered/unknown names and _Default, levels, specs and module paths, Duplicate settings with run-time adaptation in a child process; what every writer, the default channel, stderr, stdout and the error channel receive must equal the routing model exactly (each record once, nobody else). Search, not proof.",
+            "Generated writer sets (custom recorder, FileLogWriter with max_level, SyslogWriter with max_log_level), brace lists over registered/unknown names and _Default, levels, specs and module paths, Duplicate settings with run-time adaptation in a child process; what every writer, the default channel, stderr, stdout and the error channel receive must equal the routing model exactly (each record once, nobody else). Search, not proof. Later additions: a File writer whose every write fails (nothing meant for it may reach anybody else), WriteMode::SupportCapture, a syslog writer over TCP (listener on the loopback interface), child processes with fd 2 closed (failing duplicate stream).",
             "trusts the routing model (src/props/c13.rs) and the reference matcher; brace lists without repeated names or blanks",
             "DESIGN.md 4/C13"),
     "C15": ("exploration",
             "differential testing across write modes (proptest) + enumerated single-byte chunks",
-            "The same generated record or raw-chunk sequence is run under Direct, buffered and async modes; ordered file contents must agree with the Direct run and with the partition model, chunk concatenation must equal the input; all 256 single-byte chunk values are enumerated. Search, not proof.",
+            "The same generated record or raw-chunk sequence is run under Direct, buffered and async modes; ordered file contents must agree with the Direct run and with the partition model, chunk concatenation must equal the input; all 256 single-byte chunk values are enumerated. Search, not proof. Later additions: the list of all files including empty ones is compared with the Direct run; short counts from io::Write::write are followed up as write_all does; a pause after every flush in async modes.",
             "trusts the Direct mode only as the differential reference (also compared with the model)",
             "DESIGN.md 4/C15"),
 }
